@@ -1003,7 +1003,7 @@ func ruleRepTypedStore(c *Ctx, r *R) {
 				}
 				call, ok := unparen(as.Rhs[i]).(*ast.CallExpr)
 				if ok && c.CalleeName(call) == "Value.assign" && len(call.Args) == 1 {
-					if nosp(c.Src(call.Args[0])) == nosp(ts.TypeX) {
+					if nosp(c.Src(call.Args[0])) == nosp(ts.TypeX) || c.normSliceIdx(call.Args[0]) == nosp(ts.TypeX) {
 						found++
 						good++
 						continue
@@ -2065,4 +2065,57 @@ func (c *Ctx) evalFuncConst(fd *ast.FuncDecl, args []constant.Value) (constant.V
 		return nil, false
 	}
 	return v, true
+}
+
+// normSliceIdx renders e with every `name[i]`, where name is a local defined once as a slice
+// `base[lo:..]` of another slice, rewritten to `base[lo+i]` (`base[i]` when lo is absent):
+// argTypes := tokens[:args]; argTypes[i]  is  tokens[i], and retTypes := tokens[args:args+rets];
+// retTypes[i]  is  tokens[args+i].
+func (c *Ctx) normSliceIdx(e ast.Expr) string {
+	out := nosp(c.Src(e))
+	ast.Inspect(e, func(n ast.Node) bool {
+		ix, ok := n.(*ast.IndexExpr)
+		if !ok {
+			return true
+		}
+		id, ok := unparen(ix.X).(*ast.Ident)
+		if !ok {
+			return true
+		}
+		var def ast.Expr
+		// a := b[lo:hi] alone, or as one side of a tuple definition
+		if fd := c.EnclosingFunc(e); fd != nil {
+			n := 0
+			ast.Inspect(fd, func(k ast.Node) bool {
+				as, ok := k.(*ast.AssignStmt)
+				if !ok || len(as.Lhs) != len(as.Rhs) {
+					return true
+				}
+				for i, l := range as.Lhs {
+					if lid, ok := l.(*ast.Ident); ok && c.Obj(lid) == c.Obj(id) {
+						n++
+						def = as.Rhs[i]
+					}
+				}
+				return true
+			})
+			if n != 1 {
+				def = nil
+			}
+		}
+		sl, ok := unparen(def).(*ast.SliceExpr)
+		if def == nil || !ok {
+			return true
+		}
+		base := nosp(c.Src(sl.X))
+		lo := ""
+		if sl.Low != nil {
+			if v, isConst := c.ConstInt(sl.Low); !isConst || v != 0 {
+				lo = nosp(c.Src(sl.Low)) + "+"
+			}
+		}
+		out = strings.ReplaceAll(out, id.Name+"["+nosp(c.Src(ix.Index))+"]", base+"["+lo+nosp(c.Src(ix.Index))+"]")
+		return true
+	})
+	return out
 }
